@@ -58,7 +58,7 @@ impl Popen {
         final(w).s.kills == old(w).s.kills, final(w).s.n_sleep == old(w).s.n_sleep, final(w).s.wait_deadline == old(w).s.wait_deadline,
         final(w).s.pid == old(w).s.pid, final(w).s.fate == old(w).s.fate,
         final(w).s.now >= old(w).s.now, clock_ok(old(w).s) ==> clock_ok(final(w).s),
-        !is_finished(*old(self)) ==> final(w).s.n_waitpid == old(w).s.n_waitpid + 1 && final(w).s.n_blocking == old(w).s.n_blocking + (if block { 1nat } else { 0nat }),
+        !is_finished(*old(self)) ==> final(w).s.fresh && final(w).s.n_waitpid == old(w).s.n_waitpid + 1 && final(w).s.n_blocking == old(w).s.n_blocking + (if block { 1nat } else { 0nat }),
         // a blocking wait that succeeds leaves the handle finished
         block && r is Ok ==> is_finished(*final(self)),
         // if somebody else reaped the child the result is Undetermined, not an error
@@ -92,6 +92,8 @@ impl Popen {
         r is Err ==> !is_finished(*final(self)),
         // "still running" is reported no earlier than dur after the call
         r is Ok && r->Ok_0.is_none() ==> final(w).s.now >= old(w).s.now + dur.ns, //[C11]
+        // ... and only straight after a status check: never on the strength of a check made before the last sleep
+        r is Ok && r->Ok_0.is_none() ==> final(w).s.fresh, //[C11]
         // a zero duration never sleeps (poll): exactly one non-blocking status check
         dur.ns == 0 && !is_finished(*old(self)) ==> final(w).s.n_sleep == old(w).s.n_sleep && final(w).s.n_waitpid == old(w).s.n_waitpid + 1, //[C11]
         // no busy wait: between two status checks there is always a sleep
